@@ -205,8 +205,9 @@ ChiPat(bc, n, cp) ==
            [] n = 3 -> IF cp = 1 THEN <<2, 3, 2, 2>> ELSE <<1, 2, 2, 1>>
            [] OTHER -> <<2, 1, 2, 3, 2>>)
 
-KindSeqs == << <<"H", "H", "H", "H", "H", "H">>, <<"F", "F", "F", "F", "F", "F">>, <<"H", "T", "H", "T", "H", "T">>,
-               <<"T", "T", "T", "T", "T", "T">>, <<"F", "H", "F", "H", "F", "H">> >>
+KindSeqs == << <<"H", "H", "H", "H", "H", "H", "H", "H">>, <<"F", "F", "F", "F", "F", "F", "F", "F">>,
+               <<"H", "T", "H", "T", "H", "T", "H", "T">>, <<"T", "T", "T", "T", "T", "T", "T", "T">>,
+               <<"F", "H", "F", "H", "F", "H", "F", "H">> >>
 \* kind pattern kp with conservation: mixed kinds only without charges
 KindPat(kp, n) == SubSeq(KindSeqs[kp], 1, n)
 Homogeneous(kp) == kp \in {1, 2, 4}
@@ -381,17 +382,20 @@ Covering(n, mp, kp, cn, v, cx) ==
            cons == ConsOf(cn)
            \* local states: the first pattern variant that is non-zero, small, and (with a bond) has a non-degenerate
            \* spectrum of bond values -- so that a bond value on the wrong index / charge block is visible
-           cand(q, w) == MkRep("finite", Len(imap[q]), 1 + ((q + v) % 2), kp, cons, 3, v + q + 2 * w, cx = 1)
+           cand(q, w) == MkRep("finite", Len(imap[q]), IF cn = 0 THEN 1 + ((q + v) % 2) ELSE 1, kp, cons, 3, v + 7 * q + w, cx = 1)
            okc(q, w) == LET r == cand(q, w) c == Contract(r) IN
                         /\ ~TIsZero(c) /\ AbsLE(c, 40)
                         /\ (Len(imap[q]) >= 2 => \E k1, k2 \in 1..Len(r.S[2]) : r.S[2][k1] # r.S[2][k2])
-           Ws == 0..7
+                        \* (the constructor combines virtual legs into charge-sorted pipes and expects the legs of the
+                        \* local states sorted by charge and bunched, as SVD produces them)
+                        /\ \A b \in 1..Len(r.qb) : \A k \in 1..(Len(r.qb[b]) - 1) : r.qb[b][k] <= r.qb[b][k + 1]
+           Ws == 0..23
            lrep(q) == cand(q, CHOOSE w \in Ws : okc(q, w) /\ \A w2 \in Ws : w2 < w => ~okc(q, w2))
            lreps == TLCEval([q \in 1..Len(imap) |-> lrep(q)])
            locals == TLCEval([q \in 1..Len(imap) |-> Eager(Contract(lreps[q]))])
            P == Eager(CoverPsi(n, [i \in 1..n |-> Dim(kinds[i])], locals, imap))
        IN /\ Homogeneous(kp)
-          /\ \A q \in 1..Len(imap) : \E w \in Ws : okc(q, w)
+          /\ \A q \in 1..Len(imap) : {w \in Ws : okc(q, w)} # {}      \* (a set, not \E: no branching of the action)
           /\ ~TIsZero(P) /\ AbsLE(P, 100000000)
           /\ R' = NoRep /\ psi' = P /\ nrm' = 1
           /\ mode' = IF \A q \in 1..Len(imap) : Sorted(imap[q]) THEN "raw" ELSE "loose"   \* unsorted: permute_sites (SVD)
